@@ -30,7 +30,11 @@ def parseLines : List Bytes → List Field → List Field
     match line with
     | [] => parseLines rest acc
     | c :: tl =>
-      if c = space then parseLines rest (addCont acc tl)
+      if c = space then
+        -- a line of nothing but blanks and tabs is not a continuation: to the format's own parser (dpkg) it ends the
+        -- stanza, and a binary control file has exactly one; it is reported as a field of its own
+        (if tl.all (fun x => x = space || x = 9) then parseLines rest ({ key := b!"!blank-line-ends-the-stanza", first := [] } :: acc)
+         else parseLines rest (addCont acc tl))
       else match splitKeyValue line with
         | some (k, v) => parseLines rest ({ key := k, first := v } :: acc)
         | none => parseLines rest acc
